@@ -27,7 +27,7 @@ SPEC = dict(
          "whitespace other than single inner U+0020, metacharacter, invalid UTF-8, length >= 990 bytes}.",
     floors=T({"evaluations": 300000, "distinct_nontrivial": 100000, "exhaustive-1": 120, "exhaustive-2": 14400, "limits": 500,
               "random": 200000, "boundary": 40000, "invalid-heavy": 6000, "accepted": 60000, "rejected-blank": 10000,
-              "rejected-long": 15000, "rejected-meta": 40000, "cli-accepted": 40, "cli-rejected": 40},
+              "rejected-long": 10000, "rejected-meta": 40000, "cli-accepted": 40, "cli-rejected": 40},
              {"evaluations": 12000000, "distinct_nontrivial": 2000000, "exhaustive-1": 120, "exhaustive-2": 14400, "exhaustive-3": 64000,
               "limits": 500, "random": 10000000, "boundary": 2000000, "invalid-heavy": 300000, "accepted": 3000000,
               "rejected-blank": 500000, "rejected-long": 750000, "rejected-meta": 2000000, "cli-accepted": 400, "cli-rejected": 400}),
